@@ -40,6 +40,16 @@ type MermaidOpts struct {
 	PrettyPatterns bool `json:"prettyPatterns,omitempty"`
 }
 
+// mermaidText renders a string (a node's name) for use as a quoted
+// Mermaid text, which ends at the next double quote: write entity
+// codes for that character (and for the one that starts an entity
+// code).
+func mermaidText(s string) string {
+	s = strings.Replace(s, "#", "#35;", -1)
+	s = strings.Replace(s, `"`, "#quot;", -1)
+	return s
+}
+
 // Mermaid makes a Mermaid (https://mermaidjs.github.io/) input file
 // for the given graph.
 func Mermaid(spec *Spec, w io.WriteCloser, opts *MermaidOpts, fromNode, toNode string) error {
@@ -75,9 +85,9 @@ func Mermaid(spec *Spec, w io.WriteCloser, opts *MermaidOpts, fromNode, toNode s
 		nids[name] = nid
 
 		if n != nil && n.Action == nil {
-			fmt.Fprintf(w, "  %s(\"%s\")\n", nid, name)
+			fmt.Fprintf(w, "  %s(\"%s\")\n", nid, mermaidText(name))
 		} else {
-			fmt.Fprintf(w, "  %s[\"%s\"]\n", nid, name)
+			fmt.Fprintf(w, "  %s[\"%s\"]\n", nid, mermaidText(name))
 			if opts.ActionClass == "" {
 				if opts.ActionFill == "" {
 				} else {
